@@ -142,6 +142,20 @@ def main(tier):
                     got[e["?c"]] = v["?d"]
         want = dict(zip(spec.SUPERSCRIPTS, "0123456789"))
         run.ob(got == want, "superscript-map", "C13 each superscript digit denotes its digit", f.key, "map %s" % got, sample={"superscript_map": got})
+    # the shared superscript scanner collects the whole run of superscript digits, mapped digit by digit
+    f = F.by_key.get("utils::deserialize_superscript_number::deserialize_superscript_number")
+    if f is None:
+        run.ob(False, "anchor|deserialize_superscript_number", "C13 anchor", "utils", "deserialize_superscript_number not found")
+    else:
+        m0 = list(models.values())[0]
+        t = m0.tb.fn_term(f, inline_pure=True)
+        DIG = "utils.superscript_digit_to_digit"
+        pat = ("seq", ("let", "?s", ("call", "Option::unwrap_or_default", ("mapopt", ("call", DIG, ("param", "?c")), ("bind", "?d"), ("call", "<char as std::string::ToString>::to_string", ("var", "?d"))))),
+               ("loop", ("if", ("iflet", ("pvar", "Option::Some", ("bind", "?p")), ("call", "Chars.peek", ("param", "?e"))),
+                         ("if", ("iflet", ("pvar", "Option::Some", ("bind", "?q")), ("call", DIG, ("var", "?p"))), ("seq", ("call", "Chars.next", ("param", "?e")), ("call", "String::push", ("var", "?s"), ("var", "?q"))), ("break",)), ("break",))),
+               ("var", "?s"))
+        ok = M(pat, t) is not None
+        run.ob(ok, "superscript-run", "C13 a superscript run is scanned completely: first digit, then every following superscript digit, each mapped to its digit", f.key, "" if ok else "UNRECOGNISED: " + T.show(t)[:400])
     report_issues(run, models, tables={"T_prim", "T_lex", "T_loop"})
     run.floor("evaluators analysed", len(models), 5)
     run.floor("obligations", run.obligations, 200)
